@@ -157,12 +157,12 @@ reg("C10",
 reg("C07",
     title="hostile or corrupt wire input cannot harm or mislead the receiver",
     technique="raw TCP peer (and a btls endpoint as byte pipe inside an authenticated TLS channel) writing structure-aware generated byte strings in generated segmentations, shim-fragmented reads; reference frame decoder as delivery oracle, EPROTO stickiness probes, bounds on consumed-but-undelivered bytes and on heap growth; ASan+UBSan",
-    level_text="A raw socket writes generated inputs (valid frames followed by zero/oversized length headers, truncated headers and payloads, random bytes; random bytes, forged TLS records, HTTP and mutated captures of real ClientHello/server flights towards TLS endpoints; malformed frames inside an established TLS channel via a btls endpoint) to tcp, btcp, tls and btls endpoints on client and on server side, in segmentations from one write down to single bytes, with the shim additionally splitting the reads. Every xcm_receive result is compared with a reference decoder over the bytes written (exactly the well-formed frames before the first illegal header, then EPROTO for ever from receive, send and finish; bytes identical on btcp; nothing and never established on TLS garbage); the bytes XCM has consumed beyond what it delivered and the heap growth during the connection are bounded. A quarter of the cases run with the console log on.",
+    level_text="A raw socket writes generated inputs (valid frames followed by zero/oversized length headers, truncated headers and payloads, random bytes; random bytes, forged TLS records, HTTP and mutated captures of real ClientHello/server flights towards TLS endpoints; malformed frames inside an established TLS channel via a btls endpoint) to tcp, btcp, tls and btls endpoints on client and on server side, in segmentations from one write down to single bytes, with the shim additionally splitting the reads. Every xcm_receive result is compared with a reference decoder over the bytes written (exactly the well-formed frames before the first illegal header, then EPROTO for ever from receive, send and finish; bytes identical on btcp; nothing and never established on TLS garbage); a healthy bystander TLS connection kept in the same thread must stay idle-quiet and deliver a message each way afterwards; the bytes XCM has consumed beyond what it delivered and the heap growth during the connection are bounded. A quarter of the cases run with the console log on.",
     level_note="Memory safety is what ASan/UBSan can see on the inputs generated. The heap bound is generous for TLS (OpenSSL handshake buffers).",
     harness=STATES + ["c07.c"],
     stages=[dict(variant="asan", cases={"quick": 4000, "thorough": 80000}, timeout={"quick": 900, "thorough": 3400}, leaks=False)],
     floors={"quick": {"inputs": 3500, "valid_then_malformed_inputs": 300, "malformed_header_reached": 300, "recv_header_splits": 3000, "eproto_reported": 800,
-                      "terminal_probe_calls": 5000, "deliveries_checked": 50000, "tls_garbage_eproto": 400, "distinct_nontrivial": 600},
+                      "terminal_probe_calls": 5000, "deliveries_checked": 50000, "tls_garbage_eproto": 400, "bystander_connections_checked": 500, "distinct_nontrivial": 600},
             "thorough": {"inputs": 70000, "valid_then_malformed_inputs": 6000, "tls_garbage_eproto": 8000, "distinct_nontrivial": 1500}},
     rule="one evaluation = one generated input written to one connection; non-trivial (framed modes) = valid frames precede a malformed header, or a frame header was completed over >=2 reads; "
          "distinct = distinct (mode, transport, side, end action, generator, segmentation, read fragmentation, how the input ends) signatures",
